@@ -72,6 +72,8 @@ def parse_operand(tok, first=False):
             alts.append(('mem', a))
         elif a in IMM_SIZES or a in ('immv', 'imm4'):
             alts.append(('imm', a))
+        elif re.fullmatch(r'vm(32|64)[xyz]', a):
+            alts.append(('vmem', a))
         elif re.fullmatch(r'b(16|32|64)', a):
             pass  # broadcast alternative: not generated (b stays 0)
         else:
@@ -219,12 +221,14 @@ def build_form(name, o, var, gsz, vsz, modes, extra):
     roles = {'R': 'R_REG', 'M': 'R_RM', 'V': 'R_VVVV', 'S': 'R_IS4'}
     imm_specs = list(o['imm'])
     li = 0; mem_seen = False
-    nregmem = sum(1 for (alt, deco, acc) in var if alt[0] in ('reg', 'mem'))
+    nregmem = sum(1 for (alt, deco, acc) in var if alt[0] in ('reg', 'mem', 'vmem'))
     if len(layout) > nregmem and layout.replace('V', '', 1) and len(layout) - 1 == nregmem and 'V' in layout and (name, 'layout') in DB_ERRATA:
         layout = layout.replace('V', '', 1)
     for opi, (alt, deco, acc) in enumerate(var):
         kind, tok = alt
         acc = acc or 'R'   # operands without a mark are read-only (isa_x86.md)
+        # isa_x86.md: with rv/mv the partial marks w/x only apply to the 16-bit operation; 32/64-bit operations write the whole register
+        if tok in ('rv', 'mv', 'axv', 'ry', 'my') and gsz in (4, 8) and acc in ('w', 'x'): acc = acc.upper()
         if kind == 'const1':
             f['ops'].append(('K_IMM', 'R_NONE', 0, 1, 'R')); continue
         if kind == 'fixedreg':
@@ -256,6 +260,14 @@ def build_form(name, o, var, gsz, vsz, modes, extra):
             if role is None: raise Skip('layout letter ' + layout[li])
             if role == 'R_REG' and o['digit'] >= 0: role = 'R_RM'   # "[R] .. /7": the register is in ModRM.rm (mod=11)
             li += 1
+        if kind == 'vmem':
+            if role != 'R_RM': raise Skip('memory operand not in rm position')
+            if mem_seen: raise Skip('two memory operands')
+            mem_seen = True
+            f['ops'].append(('K_VMEM', role, {'x': 1, 'y': 2, 'z': 3}[tok[-1]], -1, acc))
+            if 'kz' in deco: f['flags'] = ['F_K', 'F_Z']
+            elif 'k' in deco: f['flags'] = ['F_K']
+            continue
         if kind == 'reg':
             if tok == 'rv': k = {2: 'K_GP16', 4: 'K_GP32', 8: 'K_GP64'}[gsz]
             elif tok == 'ry': k = {4: 'K_GP32', 8: 'K_GP64'}[gsz]
@@ -281,6 +293,8 @@ def build_form(name, o, var, gsz, vsz, modes, extra):
         if 'kz' in deco: f['flags'] = ['F_K', 'F_Z']
         elif 'k' in deco: f['flags'] = ['F_K']
     if (name, o['enc'][2:]) in DB_ERRATA: f.update(DB_ERRATA[(name, o['enc'][2:])])
+    if any(op[0] == 'K_VMEM' for op in f['ops']): f['has_modrm'] = 1   # db omits /r on the EVEX gather/scatter records
+    if name in PREFER_EVEX: f['flags'] = list(f['flags']) + ['F_PREFER_EVEX']
     if imm_specs: raise Skip('imm bytes without imm operand')
     if o['is4'] and not any(op[1] == 'R_IS4' for op in f['ops']): raise Skip('is4 without S')
     if f['enc'] == 'E_EVEX':
@@ -295,7 +309,10 @@ def disp8_shift(tt, f, vsz):
     import math
     vl = {0: 16, 1: 32, 2: 64, 3: 16}[f['l']]
     w = 1 if f['w'] == 1 else 0
-    memsz = [op[2] for op in f['ops'] if op[0] == 'K_MEM'][0]
+    memsz = ([op[2] for op in f['ops'] if op[0] == 'K_MEM'] or [0])[0]
+    if any(op[0] == 'K_VMEM' for op in f['ops']):
+        # gathers/scatters: Tuple1 Scalar, N = element size (vm32* index size is irrelevant; EVEX.W selects 32/64-bit data)
+        return 3 if f['w'] == 1 else 2
     if tt is None: raise Skip('evex mem form without tt')
     tt = tt.lower()
     if tt in ('fv', 'fvm', 'fm'): n = vl
@@ -316,6 +333,11 @@ def disp8_shift(tt, f, vsz):
     return int(math.log2(n))
 
 # ------------------------------------------------------------------------------------------------------------------------
+# instructions for which the database asks for the EVEX encoding even where VEX would do (postproc: encodingPreference)
+PREFER_EVEX = set()
+for grp in db.get('postproc', []):
+    for it in grp.get('instructions', []):
+        if it.get('encodingPreference') == 'EVEX': PREFER_EVEX.update(it['name'].split())
 # instruction ids asmjit defines (the DB knows a few instructions asmjit does not implement; those are listed as skipped)
 KNOWN_IDS = set(m.group(1) for m in re.finditer(r'^\s*kId([A-Za-z0-9_]+)\b', open(os.path.join(REPO, 'asmjit', 'x86', 'x86globals.h')).read(), re.M))
 groups = collections.OrderedDict()   # (name, kinds signature) -> [forms]
@@ -337,7 +359,7 @@ for g in db['instructions']:
             skipped['instruction has no asmjit id'] += 1; continue
         ngen += 1
         for f in forms:
-            key = (f['name'], tuple(op[0] if op[0] != 'K_MEM' else 'K_MEM%d' % op[2] for op in f['ops']))
+            key = (f['name'], tuple(op[0] if op[0] not in ('K_MEM', 'K_VMEM') else '%s%d' % (op[0], op[2]) for op in f['ops']))
             f['record'] = rec[al[0]] + ' :: ' + rec.get('op', '')
             groups.setdefault(key, []).append(f)
 
@@ -391,7 +413,7 @@ for key, forms in groups.items():
         sel = [i for i, f in enumerate(forms) if f['modes'] & bit]
         if not sel: continue
         fn = 'h_f%s_%s_%s' % (mode, cname(name), sig)
-        has_mem = any(k.startswith('K_MEM') for k in key[1])
+        has_mem = any(k.startswith('K_MEM') or k.startswith('K_VMEM') for k in key[1])
         kf = KF_EVEX.get(name)
         if kf and kf[1] and not has_mem: kf = None
         if kf and not any(forms[i]['enc'] == 'E_EVEX' for i in sel): kf = None
@@ -421,6 +443,9 @@ for key, forms in groups.items():
             meta.append(dict(rec, fn='%s_kf_D15' % fn, known='D15'))
         else:
             harn.append('HARNESS %s() { VF_RUN(%s, vf::%s, %d, 0); }' % (fn, x64, tabn, cnt))
+            if fn == 'h_f32_vaddpd_xmm_xmm_mem16':   # companion of known finding D18
+                harn.append('#if VF_C01 && KF_D18\nHARNESS %s_kf_D18() { vf::run_forms<%s>(vf::%s, %d, 6); }\n#endif' % (fn, x64, tabn, cnt))
+                meta.append(dict(rec, fn=fn + '_kf_D18', known='D18'))
             meta.append(dict(rec, fn=fn))
     idx += 1
 hdr.append('}  // namespace vf')
